@@ -19,6 +19,7 @@
     sliced_references_numbered    the kept references carry the numbers 1..m
     writable_slice_partial        Writable r → guards → Writable (slice r), forward AND wrap-around windows
     writable_slice_full_refuted   … false without the guard on the reference numbers
+    sliced_reference_misread      … and what the reader makes of that record (number 1005, info " x")
     read_write_sliced_exact       K1A stated positively: what the reader returns for every window
     read_write_sliced_full_refuted  "the same header fields" is false for EVERY window
     write_read_write_sliced       the byte fixed point write (read (write (slice r))) = write (slice r)
@@ -203,6 +204,19 @@ theorem writable_slice_full_refuted :
     ((sliceRecord manyRefsF ⟨[], [97, 99]⟩ 0 1).fields.references.getLast?.map fun r => refHead r) =
       some (bs "REFERENCE   1005 x") := by
   refine ⟨by decide +kernel, by decide, by decide +kernel, by decide +kernel, by decide +kernel⟩
+
+/-- … and what the round trip makes of it: the hundredth reference of the sliced witness has the
+number 100 and the info `5 x`; its REFERENCE block is written `REFERENCE   1005 x`, and
+`genbankReferenceParser` reads from that block the number 1005 and the info ` x`.  (The whole record
+goes to the real code and to the model on every run: harness case `slice/renumber-to-3-digits`; the
+text is still a write → read → write fixed point.) -/
+theorem sliced_reference_misread :
+    ((sliceRecord manyRefsF ⟨[], [97, 99]⟩ 0 1).fields.references.getLast?.map fun r => (r.number, r.info)) =
+      some (100, bs "5 x") ∧
+    referenceText ⟨100, bs "5 x", [], [], [], [], none, []⟩ = .ok (bs "REFERENCE   1005 x\n") ∧
+    (referenceField 12 Fields.empty ⟨bs "REFERENCE   1005 x\n//\n", []⟩).1 =
+      .ok ({ Fields.empty with references := [⟨1005, bs " x", [], [], [], [], none, []⟩] }, true) := by
+  refine ⟨by decide +kernel, by decide +kernel, by decide +kernel⟩
 
 /-! ## what the reader returns, and the byte fixed point -/
 
